@@ -58,7 +58,11 @@ func Revoke(w http.ResponseWriter, r *http.Request, revoker Revoker) {
 		}
 	}
 	if doDecrypt {
-		tokenID, userID, ok := getTokenIDAndSubjectForRevocation(r.Context(), revoker, token)
+		tokenID, userID, ok, err := getTokenIDAndSubjectForRevocation(r.Context(), revoker, token)
+		if err != nil {
+			RevocationRequestError(w, r, oidc.ErrServerError().WithParent(err))
+			return
+		}
 		if ok {
 			token = tokenID
 			subject = userID
@@ -155,7 +159,9 @@ func RevocationError(err error) StatusError {
 	return NewStatusError(e, status)
 }
 
-func getTokenIDAndSubjectForRevocation(ctx context.Context, userinfoProvider UserinfoProvider, accessToken string) (string, string, bool) {
+// getTokenIDAndSubjectForRevocation returns an error only if the token could not be examined
+// because the key set is unavailable; an undecodable token is not an error (RFC 7009).
+func getTokenIDAndSubjectForRevocation(ctx context.Context, userinfoProvider UserinfoProvider, accessToken string) (string, string, bool, error) {
 	ctx, span := tracer.Start(ctx, "getTokenIDAndSubjectForRevocation")
 	defer span.End()
 
@@ -163,13 +169,16 @@ func getTokenIDAndSubjectForRevocation(ctx context.Context, userinfoProvider Use
 	if err == nil {
 		splitToken := strings.Split(tokenIDSubject, ":")
 		if len(splitToken) != 2 {
-			return "", "", false
+			return "", "", false, nil
 		}
-		return splitToken[0], splitToken[1], true
+		return splitToken[0], splitToken[1], true, nil
 	}
 	accessTokenClaims, err := VerifyAccessToken[*oidc.AccessTokenClaims](ctx, accessToken, userinfoProvider.AccessTokenVerifier(ctx))
 	if err != nil {
-		return "", "", false
+		if errors.Is(err, ErrKeySetUnavailable) {
+			return "", "", false, err
+		}
+		return "", "", false, nil
 	}
-	return accessTokenClaims.JWTID, accessTokenClaims.Subject, true
+	return accessTokenClaims.JWTID, accessTokenClaims.Subject, true, nil
 }
